@@ -185,6 +185,7 @@ std::string mapping_desc(int proc) {
 // ---------------------------------------------------------------- IPC queries
 int last_sem_obj() { Task *t = cur(); return t ? k->last_sem[t->id] : -1; }
 int last_shm_obj() { Task *t = cur(); return t ? k->last_shm[t->id] : -1; }
+bool last_shm_created() { Task *t = cur(); return t && k->last_shm_created[t->id]; }
 const char *last_sem_name() { Task *t = cur(); return t ? k->last_sem_name[t->id].c_str() : ""; }
 const char *last_shm_name() { Task *t = cur(); return t ? k->last_shm_name[t->id].c_str() : ""; }
 int sem_value(int obj) { return obj >= 0 && obj < (int)k->sem_objs.size() ? k->sem_objs[obj]->value : -1; }
@@ -424,6 +425,7 @@ int simk_shm_open(const char *name, int oflag, mode_t) {
       o->open_fds++;
       fd = fd_alloc(proc_of(t->proc), e);
       k->last_shm[t->id] = o->id;
+      k->last_shm_created[t->id] = it == k->shm_names.end();
       ev("shm_open", o->id, fd);
     }
   }
